@@ -112,9 +112,9 @@ theorem accept_only_operating_valid_nonself (st : St) (m : Msg) (h : accept st m
   simpa [accept, and_assoc] using h
 
 /-- receiving never changes a member's IA/DQ view, and stores exactly the admitted messages -/
-theorem receive_keeps_views (st : St) (m : Msg) :
-    (receive st m).ia = st.ia ∧ (receive st m).dq = st.dq ∧
-    (receive st m).inbox = if accept st m then st.inbox ++ [m] else st.inbox := by
+theorem receive_keeps_views (ph : Nat) (st : St) (m : Msg) :
+    (receive ph st m).ia = st.ia ∧ (receive ph st m).dq = st.dq ∧
+    (receive ph st m).inbox = if admits ph st m then st.inbox ++ [m] else st.inbox := by
   unfold receive; split <;> simp [*]
 
 example : accept { id := 1, n := 3, t := 1, q := 7, fixed := true } (.points ⟨2, 2, true⟩ []) = true := by decide
@@ -589,7 +589,7 @@ def fDup (fix : Bool) : Cfg :=
 
 /-- corrupt 2 publishes points valid for members 1 and 4 only and accuses ITSELF in phase 8 -/
 def fAbort (fix : Bool) : Cfg :=
-  { n := 5, t := 2, seed := 463280, ord := 585, q := Gen.C01.order, fixed := true, fixAbort := fix,
+  { n := 5, t := 2, seed := 463280, ord := 585, q := Gen.C01.order, fixed := true, fixAbort := fix, fixAccept := fix,
     adv := [(2, 7, [.mods [⟨"pt", [1, 4]⟩]]), (2, 8, [.mods [⟨"acc", [2]⟩]])] }
 
 set_option maxRecDepth 100000 in
@@ -648,6 +648,21 @@ theorem phase4_order_dependence_unfixed : modelHolds (f4 false) = false := by de
 
 set_option maxRecDepth 100000 in
 theorem phase4_order_fixed_agrees : modelHolds (f4 true) = true := by decide +kernel
+
+/-- corrupt 5 sends a wrong share to corrupt 4, corrupt 4 sends a wrong share to honest 1 and
+    (truthfully) accuses 5: member 1 had disqualified 4 on its own and ignored 4's accusation -/
+def fAcc (fix : Bool) : Cfg :=
+  { n := 5, t := 2, seed := 1, ord := 0, q := Gen.C01.order, fixed := true, fixAccept := fix,
+    adv := [(4, 3, [.mods [⟨"bad", [1]⟩]]), (5, 3, [.mods [⟨"bad", [4]⟩]])] }
+
+set_option maxRecDepth 100000 in
+/-- unchanged tree: members 2 and 3 disqualify 5, member 1 does not -/
+theorem private_dq_hides_accusation_unfixed :
+    5 ∈ dqOf (fAcc false) 2 ∧ 5 ∉ dqOf (fAcc false) 1 ∧ modelHolds (fAcc false) = false := by
+  decide +kernel
+
+set_option maxRecDepth 100000 in
+theorem private_dq_accusation_fixed_agrees : modelHolds (fAcc true) = true := by decide +kernel
 
 /-- T1 tie: the states of the real state chain that are active for a positive number of blocks
     (i.e. receive messages) are exactly the model's sending phases. -/
